@@ -91,6 +91,28 @@ Theorem C12_writer_delete_metadata :
 Proof. exact writer_delete_metadata. Qed.
 Print Assumptions C12_writer_delete_metadata.
 
+(* the document afterwards: the calls' effects on the document, applied in acquisition order; a
+   store with a readable source and a delete ignore what was there before, so the LAST of them to
+   acquire the lock decides *)
+Theorem C12_one_doc_last_writer_wins :
+  forall (p : pid) (f : fmt) (calls : list call) (w0 : world) (sched : list nat) (c : cfg),
+    locks w0 = [] -> refs_typed (fs w0) ->
+    (forall ci : call, In ci calls -> one_doc_call p f ci) ->
+    exec (map api calls) sched (init_cfg (map api calls) w0) = Some c ->
+    stuck (map api calls) c ->
+    lookup (AMeta p f) (fs (snd c)) =
+    fold_left
+      (fun (d : option fcontent) (i : nat) =>
+         match callat calls i with
+         | CStoreMeta _ _ SrcMissing _ _ => d
+         | CStoreMeta _ _ _ v n => Some (CData v n n)
+         | CDelMeta _ (Some _) => None
+         | _ => d
+         end)
+      (acq_order sched ++ inert (length calls) sched) (lookup (AMeta p f) (fs w0)).
+Proof. exact one_doc_last_writer_wins. Qed.
+Print Assumptions C12_one_doc_last_writer_wins.
+
 (* ---------- non-vacuity: three store_metadata calls of different versions on document (1,5) ---------- *)
 
 (* the document exists, version 3 *)
